@@ -206,11 +206,25 @@ def rule_bp2(prog, results):
                 table.setdefault(o, set()).add(opsym)
     want = {'BitAnd': '&', 'And': '&', 'BitOr': '|', 'Or': '|',
             'Invert': '~', 'Not': '~'}
+    mentioned = set(
+        n.attr for n in ast.walk(prog.module('BDD.OBDD').tree)
+        if isinstance(n, ast.Attribute) and isinstance(n.value, ast.Name)
+        and n.value.id == 'ast')
+    pending = []
     for k, w in sorted(want.items()):
         got = table.get(k, set())
         r.inst(ast_operator=k, builds=sorted(map(str, got)), expected=w)
         if got == {w}:
             r.ok()
+        elif not got and k in mentioned:
+            # the operator class is named in the module but no path of the
+            # interpreted parse functions is conditioned on it (table-driven
+            # dispatch ...): no verdict
+            e = Inconclusive('R-BP-2', 'ast.%s is referred to but its case '
+                             'was not recognised' % k,
+                             'pyModelChecking/BDD/OBDD.py')
+            e.partial = r
+            pending.append(e)
         elif not got:
             r.fail(Finding(PROP, 'R-BP-2', 'pyModelChecking/BDD/OBDD.py:1',
                            'BDD.OBDD', 'unsupported:' + k,
@@ -221,6 +235,8 @@ def rule_bp2(prog, results):
                                map(str, got))),
                            'ast.%s is translated to %s instead of %s' % (
                                k, sorted(map(str, got)), w)))
+    if pending:
+        raise pending[0]
     return r
 
 
